@@ -147,7 +147,7 @@ def gen_plan(streams, tier):
         if lazy and op["k"] in ("set", "clear"):
             op["quiet"] = True
     nnew = sum(1 for op in ops if op["k"] in ("new", "copy", "clone"))
-    return {"property": ID, "env": envmode.choose(rnd), "noise": (rnd.randrange(1 << 30) if rnd.random() < 0.2 else None), "run_seed": streams.run_seed, "objects": objs[:len(objs) - nnew], "ops": ops}
+    return {"property": ID, "env": envmode.choose(rnd, extra=("np_err_raise",)), "noise": (rnd.randrange(1 << 30) if rnd.random() < 0.2 else None), "run_seed": streams.run_seed, "objects": objs[:len(objs) - nnew], "ops": ops}
 
 
 def corpus():
